@@ -257,6 +257,22 @@ func certNeedsUpdate(a, b *cmapi.Certificate) bool {
 		return true
 	}
 
+	if a.Spec.IssuerRef.Group != b.Spec.IssuerRef.Group {
+		return true
+	}
+
+	if !reflect.DeepEqual(a.Spec.Duration, b.Spec.Duration) {
+		return true
+	}
+
+	if !reflect.DeepEqual(a.Spec.RenewBefore, b.Spec.RenewBefore) {
+		return true
+	}
+
+	if !reflect.DeepEqual(a.Spec.Usages, b.Spec.Usages) {
+		return true
+	}
+
 	return false
 }
 
